@@ -49,6 +49,8 @@ def use_built_copy(ctx):
         ctx.inconclusive_because("the tree could not be built: %s" % p.stdout.decode(errors="replace")[-300:])
         return False
     sys.path[:] = [out] + [x for x in sys.path if os.path.realpath(x) != repo.REPO]
+    # the development install of /repo (an editable finder at the end of sys.meta_path) would answer for whatever the built copy lacks
+    sys.meta_path[:] = [f for f in sys.meta_path if "__editable__" not in str(getattr(f, "__module__", "")) and "Editable" not in type(f).__name__]
     ctx.count("built_copies")
     return True
 
@@ -151,8 +153,15 @@ def run(shard, ctx):
                  {"configuration": cfg}, exc=e)
         return
 
-    if sdm._has_sgio != shard["sgio"] or idm._has_iscsi != shard["iscsi"]:
+    if (sdm._has_sgio and not shard["sgio"]) or (idm._has_iscsi and not shard["iscsi"]):
         ctx.inconclusive_because("configuration %s not in effect: _has_sgio=%s _has_iscsi=%s" % (cfg, sdm._has_sgio, idm._has_iscsi))
+        return
+    if (shard["sgio"] and not sdm._has_sgio) or (shard["iscsi"] and not idm._has_iscsi):
+        # the stand-in is importable (it sits in sys.modules) and carries the metadata of an installed release: the library itself
+        # decided not to use it
+        ctx.case((cfg, "binding recognised"), True)
+        ctx.fail("C19:%s.present_binding_not_used" % cfg, "the %s binding is installed (release %s) but the library treats it as missing (_has_sgio=%s _has_iscsi=%s)"
+                 % ("sgio" if shard["sgio"] and not sdm._has_sgio else "iscsi", shard["version"], sdm._has_sgio, idm._has_iscsi), {"configuration": cfg, "binding_release": shard["version"]})
         return
 
     # 2. every command builds / encodes / decodes
